@@ -328,11 +328,27 @@ func mintInitPrefix(pick func(label string, n int) int) []Block {
 	if pick("mintInit", 5) == 0 {
 		return nil
 	}
-	return []Block{
+	blocks := []Block{
 		{Gap: GapSpec{Kind: 2}, Ops: []Op{{K: OpGov, A: 100 + pick("govActor", 5), V: 0}}},
 		{Gap: GapSpec{Kind: 2}},
 		{Gap: GapSpec{Kind: 6}}, // one hour: past both voting periods the genesis generator uses
 	}
+	if pick("depositRounds", 2) == 0 {
+		// bridge deposits become claimable within the history: governance shortens the window of tipped deposit
+		// rounds, a deposit query is tipped and reported by several reporters, and half a day passes
+		blocks[0].Ops = append(blocks[0].Ops, Op{K: OpGov, A: 101 + pick("govActor2", 5), V: 3, S: "trbbridge-window", R: [3]int{0, 1, 0}})
+		dep := 11 + pick("depositQuery", 3) // catalog: deposit-1..3
+		blocks = append(blocks,
+			Block{Gap: GapSpec{Kind: 2}, Ops: []Op{{K: OpTip, A: 102, R: [3]int{dep, 0, 0}, Amt: Amount{Kind: AmtAbs, N: 1_000_000}}}},
+			Block{Gap: GapSpec{Kind: 2}, Ops: []Op{
+				{K: OpSubmit, A: 0, R: [3]int{dep, 8, pick("rcpt", 8) * 8}, V: pick("depVariant", 3) * 5 % 7},
+				{K: OpSubmit, A: 1, R: [3]int{dep, 8, 8}}, {K: OpSubmit, A: 2, R: [3]int{dep, 8, 8}}, {K: OpSubmit, A: 3, R: [3]int{dep, 8, 8}}}},
+			Block{Gap: GapSpec{Kind: 2}}, Block{Gap: GapSpec{Kind: 2}},
+			Block{Gap: GapSpec{Kind: 7, Delta: int64(pick("ageDelta", 3)) - 1}},
+			Block{Gap: GapSpec{Kind: 2}, Ops: []Op{{K: OpClaimDeposit, A: 103, R: [3]int{dep - 11, 0, 0}}, {K: OpClaimDeposit, A: 104, R: [3]int{dep - 11, 0, 0}}}},
+		)
+	}
+	return blocks
 }
 
 func TestC03_Supply(t *testing.T) {
